@@ -1,1 +1,4 @@
-pub fn x() {}
+//! Independent reference model for crrl (big integers, affine formulas, one-shot hashes).
+//! Depends on num-bigint only; shares no code with crrl.
+pub mod bf;
+pub mod pf;
